@@ -26,7 +26,7 @@ class P(sb.StreamProp):
     CLASSES = {'wrap-with-pending', 'wrap-without-eof', 'read-after-eof', 'eof', 'token', 'premature', 'stream', 'bol', 'start', 'fatal', 'hang', 'input', 'phantom'}
 
     def gen_scenario(self, rng):
-        return scenario.gen_scenario(rng, want={'feats': ('eofrules',), 'flavors': ['nr', 'nr', 'r', 'r', 'c99']}, forbid=('vtrail',))
+        return scenario.gen_scenario(rng, want={'feats': ('eofrules',), 'flavors': ['nr', 'nr', 'r', 'r', 'c99', 'cxx']}, forbid=('vtrail',))
 
     def gen_plan(self, rng, sc):
         return workload.gen_eof_plan(rng, sc)
